@@ -133,7 +133,7 @@ func init() {
 		NotDecided: []string{"that the demotion happens at the very moment the grace period elapses (runtime timer behaviour)", "the result of the fresh read itself (store behaviour); keeps-leadership-iff is reduced to C04-R1 for the validation function"},
 		Assumptions: []string{"objects are identified by type (one election / handler / monitor per election)", "time.AfterFunc and time.Timer.Stop behave as documented"},
 		Rules: map[string]string{
-			"R1": "the duration argument of time.AfterFunc in the disconnect handler equals select(DGP==0 ? max(3*H, 5s) : DGP) over cfg.DisconnectGracePeriod / cfg.HeartbeatInterval",
+			"R1": "the duration argument of time.AfterFunc in the disconnect handler equals select(DGP==0 ? max(3*H, 5s) : DGP) over cfg.DisconnectGracePeriod / cfg.HeartbeatInterval; no store to either field of an existing ElectionConfig anywhere in the library (composite literals aside): the expression is read over the caller's values",
 			"R2": "time.AfterFunc is called under claim==true and under the handler mutex; the previous timer is stopped before; the new timer is stored in the handler",
 			"R3": "timer callback: an If on (captured G == current handler field G), the captured value tracing to a load of G in the arming function; the comparison has the handler mutex in its must-lockset; no may-demote call reachable from the differs edge; a demotion is reachable from the callback; G = G+1 dominates time.AfterFunc in the arming function and occurs in every function that calls Stop on the timer field",
 			"R4": "the reconnect root stops the grace timer; under claim==true it spawns a tracked verification; in the verification every return is preceded by a demotion or dominated by Get err==nil, validate err==nil and verdict true",
@@ -326,6 +326,49 @@ func checkC11(c *Ctx) {
 	if len(sites) == 0 {
 		c.undecided("R1", "grace timer", nil, "no time.AfterFunc call found in the library: the grace-period mechanism was not located")
 		return
+	}
+	// R1 reads cfg.DisconnectGracePeriod / cfg.HeartbeatInterval as the values the caller configured.
+	// That holds only while the library never rewrites them: a default resolved early (the constructor
+	// sets the grace period to 3*H when it is 0) turns the `== 0` branch that applies the 5 s floor
+	// into dead code although the expression at the timer still looks right.
+	nRewrite := 0
+	for _, f := range m.Funcs {
+		eachInstr(f, func(in ssa.Instruction) {
+			st, ok := in.(*ssa.Store)
+			if !ok {
+				return
+			}
+			fa, ok := st.Addr.(*ssa.FieldAddr)
+			if !ok {
+				return
+			}
+			fn := fieldName(fa.X.Type(), fa.Field)
+			if fn != "DisconnectGracePeriod" && fn != "HeartbeatInterval" {
+				return
+			}
+			pt, ok := fa.X.Type().Underlying().(*types.Pointer)
+			if !ok || !isNamed(pt.Elem(), m.P.Leader.Pkg.Path(), "ElectionConfig") {
+				return
+			}
+			// the fields of a composite literal are stores into a fresh cell that never receives a
+			// whole configuration: that is construction, not a rewrite
+			if al, isAl := fa.X.(*ssa.Alloc); isAl {
+				whole := false
+				for _, v := range storesTo(al) {
+					if _, isC := v.(*ssa.Const); !isC {
+						whole = true
+					}
+				}
+				if !whole {
+					return
+				}
+			}
+			nRewrite++
+			c.viol("R1", "configured grace period and heartbeat interval are never rewritten: "+shortFn(f), in, "%s stores to the %s field of a configuration that came from elsewhere (%s): the duration armed at the timer is computed from this value, not from what the caller configured - a default resolved here makes the `== 0` branch (and its 5 s floor) at the timer dead", shortFn(f), fn, clip(m.Sym.Of(fa.X).String(), 80))
+		})
+	}
+	if nRewrite == 0 {
+		c.ok("R1", "configured grace period and heartbeat interval are never rewritten", nil, "no store to the DisconnectGracePeriod / HeartbeatInterval field of an existing ElectionConfig in the library (composite literals aside)")
 	}
 	armGen, armTimer := "", "" // arming counter and timer field of the (last) grace timer site
 	var armFn *ssa.Function
